@@ -5,6 +5,7 @@ abstract interpretation), validation order of the four checked decoders, the sub
 predicate (conjunction + multiplier r), root selection by the sort flag, panic edges."""
 import roles
 import itertools
+import re
 
 import decode2
 import exp
@@ -85,7 +86,13 @@ def rule_unchecked(fx, rep):
         where = fx.fn(path)['span']
         a = fx.adts.get(ty)
         arr = a['variants'][0]['fields'][0]['ty'] if a else ''
-        rep.check(arr == '[u8; %d]' % nbytes, 'BYTES', '%s:array-length' % name, 'wraps [u8; %d]' % nbytes, 'wraps %s' % arr, where)
+        okarr = arr == '[u8; %d]' % nbytes
+        m_ = re.match(r'^\[u8; ([A-Za-z_][A-Za-z0-9_:]*)\]$', arr)
+        if not okarr and m_:
+            # the length is a named constant: compare its value
+            vals = [c_.get('v') for p_, c_ in fx.consts.items() if p_ == m_.group(1) or p_.endswith('::' + m_.group(1).rsplit('::', 1)[-1])]
+            okarr = len(vals) >= 1 and all(v_ == nbytes for v_ in vals)
+        rep.check(okarr, 'BYTES', '%s:array-length' % name, 'wraps [u8; %d]' % nbytes, 'wraps %s' % arr, where)
         sz = fx.impl_method(ENC, ty, 'size')
         from construles import const_fn_value
         rep.check(const_fn_value(fx, sz) == nbytes, 'BYTES', '%s:size()' % name, 'size() == %d' % nbytes, 'size() returns %r' % (const_fn_value(fx, sz),), where)
